@@ -127,12 +127,42 @@ package atree
 //@   ensures n == 4 || !is(recv, *basicDigester)
 //@   pure
 
+//@ # ---- lookup path (C02): every level hands the unchanged request to the routed child / element and returns its answer
+//@ iface elements.Get(storage, digester, level, hkey, comparator, key) (k, v, err)
+//@   conform all
+//@   serves C02 C18
+//@   requires wfEls(recv) && digester != nil && comparator != nil
+//@   ensures err != nil ==> k == nil && v == nil
+//@   pure
+
+//@ iface MapSlab.Get(storage, digester, level, hkey, comparator, key) (k, v, err)
+//@   conform all
+//@   serves C02 C18
+//@   ensures err != nil ==> k == nil && v == nil
+//@   pure
+
+//@ func (e *hkeyElements) Get(storage, digester, level, hkey, comparator, key) (k, v, err)  serves C02 C18
+//@   requires wfHk(e) && digester != nil
+//@   before[C02] element.Get: (exists i :: 0 <= i && i < len(e.hkeys) && e.hkeys[i] == hkey && arg_recv == e.elems[i]) &&
+//@        arg_storage == storage && arg_digester == digester && arg_level == level && arg_hkey == hkey && arg_comparator == comparator && arg_key == key
+//@   ensures[C02] (forall i :: 0 <= i && i < len(e.hkeys) ==> e.hkeys[i] != hkey) ==> err != nil && (isFatal(err) || isKeyNotFound(err))
+//@   ensures[C18] err != nil ==> k == nil && v == nil
+//@   modifies alloc
+
+//@ func (e *singleElements) Get(storage, digester, level, hkey, comparator, key) (k, v, err)  serves C02 C18
+//@   requires wfSEs(e) && digester != nil && comparator != nil
+//@   ensures[C02] err == nil ==> (exists i :: 0 <= i && i < len(e.elems) && k == e.elems[i].key && v == e.elems[i].value && keq(key, e.elems[i].key) &&
+//@        (forall j :: 0 <= j && j < i ==> !keq(key, e.elems[j].key)))
+//@   ensures[C18] err != nil ==> k == nil && v == nil && categorised(err)
+//@   modifies alloc
+
 //@ func (e *hkeyElements) getElement(digester, level, hkey, key) (elem, idx, err)  serves C02 C12 C18
 //@   requires wfHk(e) && digester != nil
 //@   ensures[C02] err == nil ==> 0 <= idx && idx < len(e.hkeys) && e.hkeys[idx] == hkey && elem == e.elems[idx]
 //@   ensures[C02] (exists k :: 0 <= k && k < len(e.hkeys) && e.hkeys[k] == hkey) ==> err == nil || isFatal(err)
 //@   ensures[C18] err != nil ==> categorised(err) && elem == nil
 //@   ensures[C18] err != nil && !isFatal(err) ==> isUser(err) && (forall k :: 0 <= k && k < len(e.hkeys) ==> e.hkeys[k] != hkey)
+//@   ensures[C02] err != nil && !isFatal(err) ==> isKeyNotFound(err)
 //@   modifies alloc
 //@   loop 1: invariant 0 <= i && i <= j && j <= len(e.hkeys) && equalIndex == -1 &&
 //@        (forall k :: 0 <= k && k < i ==> e.hkeys[k] < hkey) && (forall k :: j <= k && k < len(e.hkeys) ==> e.hkeys[k] > hkey)
@@ -150,6 +180,8 @@ package atree
 //@ pred sameHk(e *hkeyElements) = e.hkeys == old(e.hkeys) && e.elems == old(e.elems) && e.size == old(e.size) && e.level == old(e.level)
 
 //@ func (e *hkeyElements) Set(storage, address, b, digester, level, hkey, comparator, hip, key, value) (ks, existing, err)  serves C02 C05 C06 C12 C18
+//@   # the request is handed down unchanged (C02: the routed child / element answers for the caller's key and value)
+//@   before[C02] element.Set: arg_recv == e.elems[equalIndex] && e.hkeys[equalIndex] == hkey && arg_address == address && arg_level == level && arg_hkey == hkey && arg_storage == storage && arg_b == b && arg_digester == digester && arg_comparator == comparator && arg_hip == hip && arg_key == key && arg_value == value
 //@   requires wfHk(e) && storage != nil && digester != nil && comparator != nil && key != nil && value != nil && e.size <= 4290000000
 //@   assume (forall k :: 0 <= k && k < len(e.elems) ==> inSub(e, e.elems[k]) && !inSub(e.elems[k], e) &&
 //@        !(is(e.elems[k], *inlineCollisionGroup) && as(e.elems[k], *inlineCollisionGroup).elements == e)) &&
@@ -205,6 +237,8 @@ package atree
 //@   trigger { e.elems[k] }
 
 //@ func (e *hkeyElements) Remove(storage, digester, level, hkey, comparator, key) (k, v, err)  serves C02 C06 C18
+//@   # the request is handed down unchanged (C02: the routed child / element answers for the caller's key and value)
+//@   before[C02] element.Remove: arg_recv == e.elems[equalIndex] && e.hkeys[equalIndex] == hkey && arg_level == level && arg_hkey == hkey && arg_storage == storage && arg_digester == digester && arg_comparator == comparator && arg_key == key
 //@   uses elemInTotal
 //@   requires wfHk(e) && storage != nil && digester != nil && comparator != nil && e.size <= 4290000000
 //@   assume (forall i :: 0 <= i && i < len(e.elems) ==> inSub(e, e.elems[i]) && !inSub(e.elems[i], e) &&
